@@ -5,9 +5,11 @@
    Write / Delete operations on a version-3 volume; [p_run h] is the running volume (its .dat as a
    byte string built with the needle codec of C02, its .idx, its needle map); [crash st dcut icut]
    keeps the first dcut bytes of the .dat and the first icut bytes of the .idx; [load] is
-   Volume.load with CheckAndFixVolumeDataIntegrity as written; [l_read] / [l_write] are readNeedle /
-   Store.WriteVolumeNeedle on the reopened volume.  [wf_op]: a write carries a representable needle
-   with a non-empty payload and Checksum = NewCRC(Data). *)
+   Volume.load with CheckAndFixVolumeDataIntegrity as written (with the two repairs: a deletion
+   entry is verified at the tombstone record it points to, a torn trailing index entry is
+   dropped); [l_read] / [l_write] are readNeedle / Store.WriteVolumeNeedle on the reopened volume.
+   [wf_op]: a write carries a representable needle with a non-empty payload and
+   Checksum = NewCRC(Data). *)
 From Coq Require Import List NArith ZArith Bool.
 From SW Require Import model.Needle proof.NeedleProofs model.VolumeCrash proof.VolumeCrashProofs
   proof.VolumeCrashLoad proof.VolumeCrashSpec proof.VolumeCrashSafe.
@@ -23,25 +25,24 @@ Theorem c03_no_foreign_data : forall crc h dcut icut L k d, Forall (wf_op crc) h
 Proof. exact no_foreign_data. Qed.
 Print Assumptions c03_no_foreign_data.
 
-(* The full property at one crash point is [crash_safe_at]: reopen succeeds, the volume is
-   writable, every key reads as in the running volume after the operations whose index entries
-   survived, and a fresh blob can be written and read back.  It FAILS at some crash points that
-   respect write order (known findings 0 and 1, below); it holds at all others: *)
-Theorem c03_crash_safe_partial : forall crc h dcut icut, Forall (wf_op crc) h ->
+(* THE FULL PROPERTY, at every crash point that write order allows ([admissible]: the records
+   of the surviving whole index entries are in the data file in full; torn records and a torn
+   index entry included): the reopen succeeds, the volume is writable, every key reads exactly
+   as in the running volume after the operations h1 whose index entries survived, and a fresh
+   blob can be written and read back ([crash_safe_at]). *)
+Theorem c03_crash_safe : forall crc h dcut icut, Forall (wf_op crc) h ->
   admissible (p_run h) dcut icut = true ->
-  trig_torn_index icut = false -> trig_tombstone_tail (p_run h) dcut icut = false ->
   crash_safe_at crc h dcut icut.
-Proof. exact crash_safe_partial. Qed.
-Print Assumptions c03_crash_safe_partial.
+Proof. exact crash_safe. Qed.
+Print Assumptions c03_crash_safe.
 
 (* ... and "reads as in the running volume" means "reads per specification": [s_run] is the
    operation-level specification (key -> cookie, last stored needle or deleted; a write with a
    foreign cookie is refused, a repeated write changes nothing, deleted stays deleted).  At every
-   admissible trigger-free crash point the reopened volume answers every key as the specification
-   does after the operations h1 whose [icut / 16] index entries survived. *)
+   admissible crash point the reopened volume answers every key as the specification does after
+   the operations h1 whose [icut / 16] index entries survived. *)
 Theorem c03_crash_safe_per_spec : forall crc h dcut icut, Forall (wf_op crc) h ->
   admissible (p_run h) dcut icut = true ->
-  trig_torn_index icut = false -> trig_tombstone_tail (p_run h) dcut icut = false ->
   exists h1 h2 L, h = h1 ++ h2 /\ snd (s_run h1) = icut / NeedleMapEntrySize /\
     load crc (crash (p_run h) dcut icut) = Loaded L /\ l_nwod L = false /\
     forall k, l_read crc L k = s_read (fst (s_run h1)) k.
@@ -53,31 +54,6 @@ Theorem c03_running_reads_per_spec : forall crc h, Forall (wf_op crc) h ->
   snd (s_run h) = len (p_idx (p_run h)) /\ forall k, p_read (p_run h) k = s_read (fst (s_run h)) k.
 Proof. exact running_reads_spec. Qed.
 Print Assumptions c03_running_reads_per_spec.
-
-(* Known finding 0: the last surviving index entry is a tombstone and the data file holds
-   anything behind the tombstone's record (here: 5 bytes of the next record) — write-order
-   admissible, yet verifyDeletedNeedleIntegrity looks at the last 32 bytes of the FILE, fails, and
-   the volume comes up read-only. *)
-Theorem c03_crash_safe_refuted :
-  exists crc h dcut icut, Forall (wf_op crc) h /\ admissible (p_run h) dcut icut = true /\
-    trig_tombstone_tail (p_run h) dcut icut = true /\ ~ crash_safe_at crc h dcut icut.
-Proof. exact (ex_intro _ toy_crc (ex_intro _ w_history (ex_intro _ 133 (ex_intro _ 48 refuted_tombstone_tail)))). Qed.
-Print Assumptions c03_crash_safe_refuted.
-
-(* ... also with a complete record behind the tombstone *)
-Theorem c03_crash_safe_refuted_whole_record :
-  admissible (p_run w_history) 176 48 = true /\ ~ crash_safe_at toy_crc w_history 176 48.
-Proof. exact refuted_tombstone_then_record. Qed.
-Print Assumptions c03_crash_safe_refuted_whole_record.
-
-(* Known finding 1: the index file ends inside an entry (the entry's record is in the data file
-   in full): Volume.load dereferences a nil *SortedFileNeedleMap — the volume server panics. *)
-Theorem c03_crash_safe_refuted_torn_index :
-  admissible (p_run w_history) 96 23 = true /\ trig_torn_index 23 = true /\
-  (forall crc, load crc (crash (p_run w_history) 96 23) = LPanic) /\
-  ~ crash_safe_at toy_crc w_history 96 23.
-Proof. exact refuted_torn_index. Qed.
-Print Assumptions c03_crash_safe_refuted_torn_index.
 
 (* The integrity check never invents bytes or entries: both files of a reopened volume are
    prefixes / sub-lists of what the crash left, and every binding of its needle map comes from a
@@ -94,15 +70,30 @@ Theorem c03_running_invariant : forall crc h, Forall (wf_op crc) h -> Inv crc (p
 Proof. exact inv_run. Qed.
 Print Assumptions c03_running_invariant.
 
-(* non-vacuity: the witness history is well formed; a crash point of it (two index entries, the
-   data file cut nine bytes into the third record) satisfies all hypotheses of the partial
-   theorem, and the model's observation there is the expected one *)
+(* non-vacuity, on the history hello / world!! / delete 1 / second version (harness cases 0, 1):
+   it is well formed; the crash points of the two repaired findings are admissible and the model
+   now reopens them writable (tombstone last in the index + 5 torn bytes behind it: the tail is
+   cut and key 1 stays deleted; second index entry torn after 7 bytes: one entry remains); a
+   third admissible point; and a point that write order excludes. *)
 Example c03_example :
   Forall (wf_op toy_crc) w_history /\
-  admissible (p_run w_history) 105 32 = true /\ trig_torn_index 32 = false /\
-  trig_tombstone_tail (p_run w_history) 105 32 = false /\
-  observe toy_crc (crash (p_run w_history) 105 32) [1; 2; 3] (w_needle 9 7 [102; 114; 101; 115; 104] 0) =
-    {| o_load := 0; o_readonly := false; o_dat_len := 96; o_idx_len := 32;
-       o_reads := [(0, 17, [104; 101; 108; 108; 111]); (0, 305419896, [119; 111; 114; 108; 100; 33; 33]); (1, 0, [])];
-       o_write := 0; o_fresh := (0, 7, [102; 114; 101; 115; 104]); o_dat_len2 := 136; o_idx_len2 := 48 |}.
-Proof. exact (conj w_history_wf partial_not_vacuous). Qed.
+  (admissible (p_run w_history) 133 48 = true /\ tombstone_tail (p_run w_history) 133 48 = true /\
+   observe toy_crc (crash (p_run w_history) 133 48) [1; 2; 3] w_fresh =
+     {| o_load := 0; o_readonly := false; o_dat_len := 128; o_idx_len := 48;
+        o_reads := [(2, 0, []); (0, 305419896, [119; 111; 114; 108; 100; 33; 33]); (1, 0, [])];
+        o_write := 0; o_fresh := (0, 7, [102; 114; 101; 115; 104]); o_dat_len2 := 168; o_idx_len2 := 64 |}) /\
+  (admissible (p_run w_history) 96 23 = true /\ torn_index 23 = true /\
+   observe toy_crc (crash (p_run w_history) 96 23) [1; 2; 3] w_fresh =
+     {| o_load := 0; o_readonly := false; o_dat_len := 48; o_idx_len := 16;
+        o_reads := [(0, 17, [104; 101; 108; 108; 111]); (1, 0, []); (1, 0, [])];
+        o_write := 0; o_fresh := (0, 7, [102; 114; 101; 115; 104]); o_dat_len2 := 88; o_idx_len2 := 32 |}) /\
+  (admissible (p_run w_history) 105 32 = true /\
+   observe toy_crc (crash (p_run w_history) 105 32) [1; 2; 3] w_fresh =
+     {| o_load := 0; o_readonly := false; o_dat_len := 96; o_idx_len := 32;
+        o_reads := [(0, 17, [104; 101; 108; 108; 111]); (0, 305419896, [119; 111; 114; 108; 100; 33; 33]); (1, 0, [])];
+        o_write := 0; o_fresh := (0, 7, [102; 114; 101; 115; 104]); o_dat_len2 := 136; o_idx_len2 := 48 |}) /\
+  admissible (p_run w_history) 60 32 = false.
+Proof.
+  exact (conj w_history_wf (conj witness_tombstone_tail (conj witness_torn_index
+        (conj witness_torn_record not_admissible_example)))).
+Qed.
